@@ -114,3 +114,39 @@ package graph
 //@     invariant copied: forall k string :: k in visited ==> k in s.Modified && k in properties && properties[k] == s.Map[k]
 //@     invariant only: forall k string :: k in properties ==> k in visited
 //@     invariant fresh: fresh(properties)
+
+// Merge: the receiver's tracked state after replaying other's delta over it. Both entities track the
+// same loaded state and share no map.
+//@ pure func separate(a *Properties, b *Properties) bool {
+//@   a != b && (a.Map == nil || a.Map != b.Map)
+//@   && (a.Modified == nil || (a.Modified != b.Modified && a.Modified != b.Deleted))
+//@   && (a.Deleted == nil || (a.Deleted != b.Deleted && a.Deleted != b.Modified))
+//@ }
+//@ pure func fieldsOldOrFresh(s *Properties) bool {
+//@   (s.Map == old(s.Map) || fresh(s.Map)) && (s.Modified == old(s.Modified) || fresh(s.Modified)) && (s.Deleted == old(s.Deleted) || fresh(s.Deleted))
+//@   && (s.Modified == nil || s.Modified != s.Deleted)
+//@ }
+//@ func (s *Properties) Merge(other *Properties)
+//@   requires s != nil && wf(s) && (other != nil ==> wf(other) && sameLoaded(s, other) && separate(s, other))
+//@   modifies s.Map, s.Modified, s.Deleted, contents(s.Map), contents(s.Modified), contents(s.Deleted)
+//@   ensures wf: wf(s)
+//@   ensures loaded: loadedUnchanged(s)
+//@   ensures otherWins: other != nil ==> (forall k string :: k in other.Modified ==> k in s.Map && s.Map[k] == other.Map[k] && k in s.Modified && !(k in s.Deleted))
+//@   ensures otherDeletes: other != nil ==> (forall k string :: k in other.Deleted ==> !(k in s.Map) && k in s.Deleted && !(k in s.Modified))
+//@   ensures receiverDeletesKept: other != nil ==> (forall k string :: old(k in s.Deleted) && !(k in other.Modified) ==> k in s.Deleted && !(k in s.Map))
+//@   ensures absent: other != nil ==> (forall k string :: !(k in other.Map) && !(k in other.Deleted) ==> (k in s.Modified) == old(k in s.Modified) && (k in s.Deleted) == old(k in s.Deleted) && (k in s.Map) == old(k in s.Map) && (k in s.Map ==> s.Map[k] == old(s.Map[k])))
+//@   loop 0
+//@     invariant fields: fieldsOldOrFresh(s) && (len(other.Map) > 0 ==> s.Map != nil) && s.Modified == old(s.Modified) && s.Deleted == old(s.Deleted)
+//@     invariant done: forall k string :: k in visited && !(k in s.Deleted && !(k in other.Modified)) ==> k in other.Map && k in s.Map && s.Map[k] == other.Map[k]
+//@     invariant skipped: forall k string :: k in visited && k in s.Deleted && !(k in other.Modified) ==> k in other.Map && !(k in s.Map)
+//@     invariant rest: forall k string :: !(k in visited) ==> (k in s.Map) == old(k in s.Map) && (k in s.Map ==> s.Map[k] == old(s.Map[k]))
+//@     invariant deletedSame: forall k string :: (k in s.Deleted) == old(k in s.Deleted)
+//@   loop 1
+//@     invariant fields: fieldsOldOrFresh(s) && (len(other.Modified) > 0 ==> s.Modified != nil) && s.Deleted == old(s.Deleted)
+//@     invariant done: forall k string :: k in visited ==> k in other.Modified && k in s.Modified && !(k in s.Deleted)
+//@     invariant rest: forall k string :: !(k in visited) ==> (k in s.Modified) == old(k in s.Modified) && (k in s.Deleted) == old(k in s.Deleted)
+//@   loop 2
+//@     invariant fields: fieldsOldOrFresh(s) && (len(other.Deleted) > 0 ==> s.Deleted != nil)
+//@     invariant done: forall k string :: k in visited ==> k in other.Deleted && k in s.Deleted && !(k in s.Map) && !(k in s.Modified)
+//@     invariant restMap: forall k string :: !(k in visited) ==> (k in s.Map) == (old(k in s.Map) || (k in other.Map && !(old(k in s.Deleted) && !(k in other.Modified)))) && (k in s.Map && k in other.Map ==> s.Map[k] == other.Map[k]) && (k in s.Map && !(k in other.Map) ==> s.Map[k] == old(s.Map[k]))
+//@     invariant restFlags: forall k string :: !(k in visited) ==> (k in s.Modified) == (old(k in s.Modified) || k in other.Modified) && (k in s.Deleted) == (old(k in s.Deleted) && !(k in other.Modified))
